@@ -305,4 +305,60 @@ func runC07(c *Ctx) {
 	lexStream(c, c.Scale(3000, 60000))
 	// $INCLUDE on the model: which files are opened, in which order, and where the reading stops
 	includeTreeStream(c, "include-tree", c.Scale(400, 8000))
+	// the end of the input anywhere: the text of a record of every type, cut after every octet, with no line end behind it
+	// (NewRR always appends one; a ZoneParser or ReadRR on a file that was cut short does not)
+	{
+		t := loadSpec()
+		for _, code := range t.wireTypes() {
+			for k := 0; k < c.Scale(1, 4); k++ {
+				g := genRR(r, code, r.Intn(2), r.Bool())
+				rr, off, err := dns.UnpackRR(g.Wire, 0)
+				if err != nil || off != len(g.Wire) {
+					continue
+				}
+				txt := rr.String()
+				if len(txt) > 400 {
+					txt = txt[:400]
+				}
+				for cut := 1; cut <= len(txt); cut++ {
+					zr := runHostile(txt[:cut], false, false, "", false)
+					c.Pred("eof-anywhere", "no-panic-no-hang", "zone="+hxs(txt[:cut]), !zr.panicked && !zr.hung, fmt.Sprint("panic=", zr.panicked, " hang=", zr.hung), "returns", true)
+				}
+			}
+		}
+		for _, txt := range []string{"a. LOC 42 N 71 W", "a. LOC 42 21 54 N 71 06 18 W", "a. LOC 42 N 71 W ", "a. LOC 42 N", "a. LOC 42 N 71 W -24m 30m", "a. LOC 42 N 71 W -24m 30m 10m 10m"} {
+			for cut := 6; cut <= len(txt); cut++ {
+				zr := runHostile(txt[:cut], false, false, "", false)
+				c.Pred("eof-anywhere", "no-panic-no-hang", "zone="+hxs(txt[:cut]), !zr.panicked && !zr.hung, fmt.Sprint("panic=", zr.panicked, " hang=", zr.hung), "returns", true)
+			}
+		}
+	}
+	// a $GENERATE inside a $GENERATE is refused also when an $INCLUDE stands between them: the file a generated $INCLUDE
+	// line names contains a $GENERATE of its own
+	for _, tc := range []struct {
+		zone   string
+		reject bool
+	}{{"$GENERATE 0-1 \\$INCLUDE gen.db\n", true}, {"$GENERATE 0-1 \\$INCLUDE plain.db\n", false}, {"$INCLUDE gen.db\n", false},
+		{"$GENERATE 0-1 \\$GENERATE 1-2 x$ A 10.0.0.$\n", true}, {"$GENERATE 0-0 \\$INCLUDE via.db\n", true}} {
+		fsys := fstest.MapFS{"gen.db": {Data: []byte("$GENERATE 1-3 i$ A 10.0.0.$\n")}, "plain.db": {Data: []byte("p A 10.0.0.9\n")}, "via.db": {Data: []byte("$INCLUDE gen.db\n")}}
+		res := guard(func() string {
+			zp := dns.NewZoneParser(strings.NewReader(tc.zone), "example.", "nested.db")
+			zp.SetIncludeAllowed(true)
+			zp.SetIncludeFS(fsys)
+			zp.SetDefaultTTL(60)
+			n := 0
+			for _, ok := zp.Next(); ok && n < 100; _, ok = zp.Next() {
+				n++
+			}
+			if err := zp.Err(); err != nil {
+				return "error"
+			}
+			return fmt.Sprintf("%d records", n)
+		})
+		key := "generate-inside-generate-rejected"
+		if tc.reject && strings.Contains(tc.zone, "$INCLUDE") {
+			key = "generate-inside-generate-through-include-rejected" // known finding F32: the suite pins that this is accepted
+		}
+		c.Pred("directed", key, "zone="+hxs(tc.zone), (res == "error") == tc.reject, res, map[bool]string{true: "error", false: "records"}[tc.reject], true)
+	}
 }
